@@ -24,7 +24,7 @@ PLAN = {
     "thorough": {"shards": 16, "shard_timeout": 3600, "case_timeout": 60, "runs": 1200000, "max_case_timeouts": 10},
 }
 THRESHOLDS = {
-    "quick": {"runs_checked": 600, "budget_checks": 5000, "alg:gp": 100, "alg:rs": 100, "alg:hc": 100, "alg:opo": 100, "kind:evaluation": 200, "kind:target": 100, "kind:anyof": 150, "target_reached_runs": 60, "zero_creation_runs": 10, "selection_after_variation_runs": 40, "frontend_runs": 40, "gp_runs_with_membership_model": 100, "frontend_runs_with_target_zero": 10, "frontend_target_reached_runs": 15},
+    "quick": {"runs_checked": 600, "budget_checks": 5000, "alg:gp": 100, "alg:rs": 100, "alg:hc": 100, "alg:opo": 100, "kind:evaluation": 200, "kind:target": 100, "kind:anyof": 150, "target_reached_runs": 60, "zero_creation_runs": 10, "selection_after_variation_runs": 40, "frontend_runs": 40, "frontend_repr:ge": 3, "frontend_repr:dsge": 3, "frontend_repr:stack": 3, "gp_runs_with_membership_model": 100, "frontend_runs_with_target_zero": 10, "frontend_target_reached_runs": 15},
     "thorough": {"runs_checked": 15000, "budget_checks": 120000, "zero_creation_runs": 300},
 }
 
@@ -64,7 +64,7 @@ def gen_frontend(rng, n):
             "pop": rng.choice([3, 4, 6, 10]),
             "target_at": rng.randint(1, 40),
             "landscape": rng.choice(["plateau", "plateau", "counter", "never"]),
-            "repr": "treebased",  # the front-end's GrowInitializer only accepts the tree representation
+            "repr": rng.choice(["treebased", "treebased", "ge", "sge", "dsge", "stack"]),  # every name the front-end advertises
             "seed": rng.randrange(10**6),
         }
 
@@ -116,6 +116,7 @@ def run_frontend(case, rec):
         rec.violation(f"search:raises:{type(e).__name__}@{core.exc_site(e)}", dict(wit, error=core.short(e)))
         return
     rec.count("frontend_runs")
+    rec.count(f"frontend_repr:{case['repr']}")
     rec.count("evaluations")
     rec.count("budget_checks", len(log))
     if target is not None and float(target) == 0.0:
